@@ -79,7 +79,7 @@ def events(rows, adjust):
     for r in sorted(rows, key=lambda r: r['date']):
         d = dt.date.fromisoformat(r['date'])
         if adjust:
-            if r['open'] is None or r['close'] is None or r['adj'] is None:
+            if r['open'] is None or r['close'] is None or r['adj'] is None or r['close'] == 0:
                 o = None
             else:
                 o = F(r['adj']) / F(r['close']) * F(r['open'])
@@ -279,6 +279,14 @@ def run_dataset(ds, acc, rng, n_extra=0):
             check_answer(ds, asset, t, hba[1], 'handler.bid_ask[1]', acc)
             check_answer(ds, asset, t, hm, 'handler.mid', acc)
             acc.count('C06:handler_checks')
+            # an instant is an instant: the same query expressed in another time zone gives the same answer
+            if acc.counters['C06:handler_checks'] % 3 == 0:
+                for zone in ('Asia/Tokyo', 'America/New_York', 'Asia/Kolkata'):
+                    tz_ts = ts.tz_convert(zone)
+                    check_answer(ds, asset, t, handler.get_asset_latest_bid_price(tz_ts, asset), 'handler.bid[%s]' % zone, acc)
+                    check_answer(ds, asset, t, handler.get_asset_latest_mid_price(tz_ts, asset), 'handler.mid[%s]' % zone, acc)
+                    check_answer(ds, asset, t, src.get_ask(tz_ts, asset), 'get_ask[%s]' % zone, acc)
+                    acc.count('C06:other_timezone_checks')
     acc.count('C06:lru_hits', src.get_bid.cache_info().hits if hasattr(src.get_bid, 'cache_info') else 0)
 
 
